@@ -622,8 +622,9 @@ func (c *VirtualTable) Insert(ctx context.Context, values map[int]interface{}) (
 		new.ColumnValues[colName] = &v1proto.ColumnValue{Value: toSQLiteValue(v)}
 		dbg("SET %d %v=%v\n", i, key, v)
 	}
-	merged := MergeRows(key, ot, old, t, &new, t)
-	err = c.Tree.Root.Set(ctx, t, NewKey(key), merged)
+	outTime := laterOf(ot, t)
+	merged := MergeRows(key, ot, old, t, &new, outTime)
+	err = c.Tree.Root.Set(ctx, outTime, NewKey(key), merged)
 	if err != nil {
 		return 0, fmt.Errorf("set: %w", err)
 	}
@@ -674,8 +675,9 @@ func (c *VirtualTable) Update(ctx context.Context, key interface{}, values map[i
 		colName := c.ColumnNameByIndex[i]
 		new.ColumnValues[colName] = ToColumnValue(v)
 	}
-	merged := MergeRows(key, ot, old, t, &new, t)
-	err = c.Tree.Root.Set(ctx, t, NewKey(key), merged)
+	outTime := laterOf(ot, t)
+	merged := MergeRows(key, ot, old, t, &new, outTime)
+	err = c.Tree.Root.Set(ctx, outTime, NewKey(key), merged)
 	if err != nil {
 		return fmt.Errorf("set: %w", err)
 	}
@@ -694,8 +696,9 @@ func (c *VirtualTable) Delete(ctx context.Context, key interface{}) error {
 	}
 	t := updateTime(ctx)
 	new.Deleted = true
-	merged := MergeRows(key, ot, old, t, &new, t)
-	err = c.Tree.Root.Set(ctx, t, NewKey(key), merged)
+	outTime := laterOf(ot, t)
+	merged := MergeRows(key, ot, old, t, &new, outTime)
+	err = c.Tree.Root.Set(ctx, outTime, NewKey(key), merged)
 	if err != nil {
 		return fmt.Errorf("set: %w", err)
 	}
@@ -992,6 +995,16 @@ func Vacuum(ctx context.Context, tableName string, beforeTime time.Time) error {
 	}
 
 	return nil
+}
+
+// laterOf keeps a row's modification time from moving backwards when a
+// statement carries a write time older than the stored row: the tree would
+// otherwise discard the whole statement instead of merging it per column.
+func laterOf(a, b time.Time) time.Time {
+	if a.After(b) {
+		return a
+	}
+	return b
 }
 
 func updateTime(ctx context.Context) time.Time {
